@@ -131,7 +131,7 @@ func c03Judge(c *mon.Ctx, a, b *exact.Shape, family string, corpus, closedA bool
 		enc := allEncs[int(uint64(hashShape(mon.NewH(), b))%uint64(len(allEncs)))]
 		sc := enc.Name
 		c.Try(func() {
-			ic := cfgs[len(cfgs)-1]
+			ic := cfgs[int(uint64(hashShape(mon.NewH(), a))%uint64(len(cfgs)))]
 			la, lb := buildLibEnc(a, ic, closedA, enc), buildLibEnc(b, ic, !closedA, enc)
 			var got bool
 			ev := traced(func() { got = gContains(la, lb) })
